@@ -1,11 +1,12 @@
 package c10
 
 // C10 — evmutil: converted assets are always fully backed on the other side.
-// Histories of the four conversion messages (through ValidateBasic + the msg
-// server, or the keeper method directly), plain ERC20 transfers and mints in
-// the real EVM, bank MsgSend and parameter changes; monitors state the
-// property on the implementation; the same histories are written as Coq terms
-// for Model/Evmutil.v.
+// Histories of transactions: the four conversion messages (through ValidateBasic + the
+// app's message router, or the keeper method directly), plain ERC20 transfers, mints,
+// approvals and transferFroms in the real EVM (compiled OpenZeppelin contracts and one
+// adversarial token), bank MsgSend and parameter-change proposals (well-formed and
+// malformed) through the governance handler; monitors state the property on the
+// implementation; the same histories are written as Coq terms for Model/Evmutil.v.
 
 import (
 	. "kavaverif/lib"
@@ -15,6 +16,9 @@ import (
 	"math/big"
 	"os"
 	"strings"
+	"sync/atomic"
+
+	sdk "github.com/cosmos/cosmos-sdk/types"
 
 	evmutilkeeper "github.com/kava-labs/kava/x/evmutil/keeper"
 )
@@ -25,29 +29,56 @@ const defaultLen = 30
 
 func eq(a, b *big.Int) bool { return a.Cmp(b) == 0 }
 
+func cloneRow(row []*big.Int) []*big.Int {
+	r := make([]*big.Int, len(row))
+	for i, v := range row {
+		r[i] = new(big.Int).Set(v)
+	}
+	return r
+}
+
 func cloneSnap(s *snap) *snap {
-	c := &snap{n: s.n}
+	c := &snap{n: s.n, badParams: s.badParams}
 	for _, row := range s.bal {
-		r := make([]*big.Int, len(row))
-		for i, v := range row {
-			r[i] = new(big.Int).Set(v)
-		}
-		c.bal = append(c.bal, r)
+		c.bal = append(c.bal, cloneRow(row))
 	}
-	for _, v := range s.sup {
-		c.sup = append(c.sup, new(big.Int).Set(v))
-	}
+	c.sup = cloneRow(s.sup)
 	for _, row := range s.erc {
-		r := make([]*big.Int, len(row))
-		for i, v := range row {
-			r[i] = new(big.Int).Set(v)
-		}
-		c.erc = append(c.erc, r)
+		c.erc = append(c.erc, cloneRow(row))
 	}
-	for _, v := range s.tot {
-		c.tot = append(c.tot, new(big.Int).Set(v))
+	c.tot = cloneRow(s.tot)
+	for _, m := range s.allow {
+		var mm [][]*big.Int
+		for _, row := range m {
+			mm = append(mm, cloneRow(row))
+		}
+		c.allow = append(c.allow, mm)
 	}
 	c.reg = append([]int(nil), s.reg...)
+	c.pairs = append([][2]int(nil), s.pairs...)
+	c.allowed = append([]int(nil), s.allowed...)
+	return c
+}
+
+func zeroRow() []*big.Int {
+	row := make([]*big.Int, nAcc)
+	for a := range row {
+		row[a] = big.NewInt(0)
+	}
+	return row
+}
+
+// addContract appends an empty contract to an expected state
+func (s *snap) addContract() int {
+	c := s.n
+	s.n++
+	s.erc = append(s.erc, zeroRow())
+	s.tot = append(s.tot, big.NewInt(0))
+	var m [][]*big.Int
+	for a := 0; a < nAcc; a++ {
+		m = append(m, zeroRow())
+	}
+	s.allow = append(s.allow, m)
 	return c
 }
 
@@ -78,25 +109,66 @@ func diff(exp, got *snap) string {
 			if !eq(exp.erc[c][a], got.erc[c][a]) {
 				return fmt.Sprintf("ERC20 balance of account %d in contract %d: expected %s got %s", a, c, exp.erc[c][a], got.erc[c][a])
 			}
+			for sp := range exp.allow[c][a] {
+				if !eq(exp.allow[c][a][sp], got.allow[c][a][sp]) {
+					return fmt.Sprintf("ERC20 allowance of spender %d over the tokens of %d in contract %d: expected %s got %s", sp, a, c, exp.allow[c][a][sp], got.allow[c][a][sp])
+				}
+			}
 		}
 		if !eq(exp.tot[c], got.tot[c]) {
 			return fmt.Sprintf("ERC20 total supply of contract %d: expected %s got %s", c, exp.tot[c], got.tot[c])
 		}
+	}
+	if fmt.Sprint(exp.pairs) != fmt.Sprint(got.pairs) {
+		return fmt.Sprintf("enabled pairs: expected %v got %v", exp.pairs, got.pairs)
+	}
+	if fmt.Sprint(exp.allowed) != fmt.Sprint(got.allowed) {
+		return fmt.Sprintf("allowed cosmos denoms: expected %v got %v", exp.allowed, got.allowed)
 	}
 	return ""
 }
 
 type failure struct{ pred, sig, detail string }
 
+type sdkCtx = sdk.Context
+
 // ------------------------------------------------------------ monitors
 
-// backing states both backing equations directly on the observed state.
-func (w *world) backing(s *snap) *failure {
+// backing states both backing equations, and what the property needs of the parameters and of
+// the allowances, directly on the observed state.
+func (w *world) backing(ctx sdkCtx, s *snap) *failure {
 	for d := 0; d < nDenom; d++ {
 		if c := s.reg[d]; c >= 0 {
 			if !eq(s.tot[c], s.bal[accM][d]) {
 				return &failure{"cosmos-native-backed", "cosmos-backing-broken",
 					fmt.Sprintf("%s: wrapper %d total supply %s, module account holds %s", denoms[d], c, s.tot[c], s.bal[accM][d])}
+			}
+			if !w.hasCode(ctx, w.ctr[c].Address) {
+				return &failure{"registered-wrapper-exists", "registered-contract-has-no-code",
+					fmt.Sprintf("%s is registered to contract %d (%s) which has no code", denoms[d], c, w.ctr[c].Hex())}
+			}
+		} else if s.bal[accM][d].Sign() != 0 {
+			// coins of a denom without a wrapper locked in the module account: nothing stands for them
+			return &failure{"cosmos-native-backed", "coins-locked-without-wrapper",
+				fmt.Sprintf("module account holds %s%s but no ERC20 contract is registered for the denom", s.bal[accM][d], denoms[d])}
+		}
+	}
+	// the parameters: every entry well-formed, no contract and no denom twice
+	if s.badParams != "" {
+		return &failure{"enabled-pairs-well-formed", "malformed-params-in-force", s.badParams}
+	}
+	for i := range s.pairs {
+		for j := i + 1; j < len(s.pairs); j++ {
+			if s.pairs[i][0] == s.pairs[j][0] || s.pairs[i][1] == s.pairs[j][1] {
+				return &failure{"enabled-pairs-duplicate-free", "duplicate-pair-in-force",
+					fmt.Sprintf("enabled pairs %v: entries %d and %d share a contract or a denom", s.pairs, i, j)}
+			}
+		}
+	}
+	for i := range s.allowed {
+		for j := i + 1; j < len(s.allowed); j++ {
+			if s.allowed[i] == s.allowed[j] {
+				return &failure{"allowed-denoms-duplicate-free", "duplicate-token-in-force", fmt.Sprint(s.allowed)}
 			}
 		}
 	}
@@ -108,15 +180,24 @@ func (w *world) backing(s *snap) *failure {
 		}
 		if need.Cmp(s.erc[c][accM]) > 0 {
 			sig := "evm-backing-broken"
-			if !w.enabled[c] {
+			if s.denomOfCtr(c) < 0 {
 				sig = "evm-backing-broken-disabled-pair"
 			}
 			return &failure{"evm-native-backed", sig,
 				fmt.Sprintf("pair %d (%s): coin supply %s needs %s locked, module EVM address holds %s", c, denoms[d], s.sup[d], need, s.erc[c][accM])}
 		}
+		// coins of the pair denom exist: nobody may hold an allowance over the tokens that back them
+		if s.sup[d].Sign() > 0 {
+			for a := 0; a < nAcc; a++ {
+				if s.allow[c][accM][a].Sign() != 0 {
+					return &failure{"no-allowance-over-locked-tokens", "allowance-over-locked-tokens",
+						fmt.Sprintf("pair %d (%s): account %d may spend %s of the module's locked tokens, coin supply %s", c, denoms[d], a, s.allow[c][accM][a], s.sup[d])}
+				}
+			}
+		}
 	}
 	// the keeper's own invariant functions (the EVM-native one is not registered)
-	cctx, _ := w.ctx.CacheContext() // the keeper's EVM queries write nonces; discard them
+	cctx, _ := ctx.CacheContext() // the keeper's EVM queries write nonces; discard them
 	if msg, broken := evmutilkeeper.CosmosCoinsFullyBackedInvariant(w.bank, w.k)(cctx); broken {
 		return &failure{"keeper-invariant-cosmos-coins-fully-backed", "cosmos-backing-broken", strings.TrimSpace(msg)}
 	}
@@ -127,56 +208,66 @@ func (w *world) backing(s *snap) *failure {
 }
 
 // crossCheck compares the raw storage reads with the keeper's EVM query helpers
-func (w *world) crossCheck(s *snap, c int, accs ...int) *failure {
+func (w *world) crossCheck(ctx sdkCtx, s *snap, c int, accs ...int) *failure {
 	if c < 0 || c >= s.n {
 		return nil
 	}
 	for _, a := range append(accs, accM) {
-		if q := w.queryBalance(c, a); !eq(q, s.erc[c][a]) {
+		if q := w.queryBalance(ctx, c, a); !eq(q, s.erc[c][a]) {
 			return &failure{"raw-storage-equals-keeper-query", "raw-vs-query", fmt.Sprintf("balanceOf contract %d account %d: query %s raw %s", c, a, q, s.erc[c][a])}
 		}
 	}
-	if q := w.queryTotal(c); !eq(q, s.tot[c]) {
+	if isEvil(c) {
+		return nil
+	}
+	if q := w.queryTotal(ctx, c); !eq(q, s.tot[c]) {
 		return &failure{"raw-storage-equals-keeper-query", "raw-vs-query", fmt.Sprintf("totalSupply contract %d: query %s raw %s", c, q, s.tot[c])}
 	}
 	return nil
 }
 
-func enabledPairOfDenom(en []bool, d int) int {
-	for c := 0; c < nPair; c++ {
-		if en[c] && pairDenom[c] == d {
-			return c
-		}
-	}
-	return -1
-}
-
 func sub(a **big.Int, x *big.Int) { *a = new(big.Int).Sub(*a, x) }
 func add(a **big.Int, x *big.Int) { *a = new(big.Int).Add(*a, x) }
 
-// monitor states the property for one executed operation.  en/al are the
-// parameters in force when the operation ran.
-func (w *world) monitor(o op, cls Class, before, after *snap, en, al []bool, blockedAcc []bool) *failure {
-	if cls != ClassOk {
-		if d := diff(before, after); d != "" {
-			return &failure{"failed-or-disabled-no-change", "failed-op-changed-state", d}
-		}
-		return w.backing(after)
-	}
+// monitor states the property for one message that SUCCEEDED, observed on the context it ran
+// on (before, after).  The parameters in force when it ran are those of [before].
+func (w *world) monitor(ctx sdkCtx, o op, before, after *snap, blockedAcc []bool) *failure {
 	x := o.amount()
 	exp := cloneSnap(before)
 	kind := o.Kind
 	bad := func(pred, sig, detail string) *failure { return &failure{pred, sig, detail} }
+	// frame: the ledger of one contract is taken as observed (the ERC20 semantics themselves are the
+	// business of the correspondence check), everything else must be untouched
+	frame := func(c int) {
+		if c >= 0 && c < before.n {
+			exp.erc[c], exp.tot[c], exp.allow[c] = after.erc[c], after.tot[c], after.allow[c]
+		}
+	}
+	noAllowance := func(c int) *failure {
+		for a := 0; a < nAcc; a++ {
+			if after.allow[c][accM][a].Sign() != 0 {
+				return bad("no-allowance-over-locked-tokens", "allowance-over-locked-tokens",
+					fmt.Sprintf("after the conversion account %d may spend %s of the module's tokens in contract %d", a, after.allow[c][accM][a], c))
+			}
+		}
+		return nil
+	}
 	switch kind {
 	case "c2e":
-		c := enabledPairOfDenom(en, o.D)
+		c := before.pairOfDenom(o.D)
 		if c < 0 {
 			sig := "disabled-conversion-accepted"
-			if o.D >= firstLook {
+			if isLook(o.D) {
 				sig = "lookalike-denom-conversion-accepted"
 			}
 			return bad("conversion-of-a-denom-that-is-not-exactly-an-enabled-pair-denom-refused", sig,
-				fmt.Sprintf("ConvertCoinToERC20 of %q succeeded (enabled pairs: %v)", denoms[o.D], en))
+				fmt.Sprintf("ConvertCoinToERC20 of %q succeeded (enabled pairs: %v)", denoms[o.D], before.pairs))
+		}
+		if c >= before.n {
+			return bad("disabled-conversion-refused", "conversion-through-address-without-code-accepted", fmt.Sprint(c))
+		}
+		if isEvil(c) {
+			return bad("approval-emitting-pair-refused", "approval-emitting-pair-converted", fmt.Sprintf("ConvertCoinToERC20 through contract %d", c))
 		}
 		if x.Sign() < 0 || (!o.Direct && x.Sign() == 0) {
 			return bad("non-positive-amount-refused", "non-positive-amount-accepted", o.X)
@@ -192,21 +283,33 @@ func (w *world) monitor(o op, cls Class, before, after *snap, en, al []bool, blo
 			// the coins are burned and the tokens never leave the module: the receiver is credited nothing
 			return bad("conversion-value", "unlock-to-module-itself-accepted", fmt.Sprintf("amount %s", x))
 		}
+		if o.R == accZero {
+			return bad("conversion-value", "unlock-to-zero-address-accepted", fmt.Sprintf("amount %s", x))
+		}
 		sub(&exp.bal[o.I][o.D], x)
 		sub(&exp.sup[o.D], x)
 		sub(&exp.erc[c][accM], u)
 		add(&exp.erc[c][o.R], u)
-		if f := w.crossCheck(after, c, o.R); f != nil {
+		if f := noAllowance(c); f != nil {
+			return f
+		}
+		if f := w.crossCheck(ctx, after, c, o.R); f != nil {
 			return f
 		}
 	case "e2c":
-		if o.C >= nPair || !en[o.C] {
+		d := before.denomOfCtr(o.C)
+		if d < 0 {
 			return bad("disabled-conversion-refused", "disabled-conversion-accepted", fmt.Sprintf("ConvertERC20ToCoin of contract %d", o.C))
+		}
+		if o.C >= before.n {
+			return bad("disabled-conversion-refused", "conversion-through-address-without-code-accepted", fmt.Sprint(o.C))
+		}
+		if isEvil(o.C) {
+			return bad("approval-emitting-pair-refused", "approval-emitting-pair-converted", fmt.Sprintf("ConvertERC20ToCoin through contract %d", o.C))
 		}
 		if x.Sign() < 0 || (!o.Direct && x.Sign() == 0) {
 			return bad("non-positive-amount-refused", "non-positive-amount-accepted", o.X)
 		}
-		d := pairDenom[o.C]
 		mint := new(big.Int).Set(x)
 		lock := new(big.Int).Set(x)
 		if isBep3[d] {
@@ -235,13 +338,16 @@ func (w *world) monitor(o op, cls Class, before, after *snap, en, al []bool, blo
 		add(&exp.erc[o.C][accM], lock)
 		add(&exp.bal[o.R][d], mint)
 		add(&exp.sup[d], mint)
-		if f := w.crossCheck(after, o.C, o.I); f != nil {
+		if f := noAllowance(o.C); f != nil {
+			return f
+		}
+		if f := w.crossCheck(ctx, after, o.C, o.I); f != nil {
 			return f
 		}
 	case "cos2e":
-		if !al[o.D] {
+		if !before.isAllowed(o.D) {
 			sig := "not-allowed-denom-accepted"
-			if o.D >= firstLook {
+			if isLook(o.D) {
 				sig = "lookalike-denom-conversion-accepted"
 			}
 			return bad("disabled-conversion-refused", sig, fmt.Sprintf("ConvertCosmosCoinToERC20 of %q succeeded", denoms[o.D]))
@@ -252,23 +358,29 @@ func (w *world) monitor(o op, cls Class, before, after *snap, en, al []bool, blo
 		if x.Cmp(before.bal[o.I][o.D]) > 0 {
 			return bad("overdraw-refused", "overdraw-accepted", fmt.Sprintf("amount %s > balance %s", x, before.bal[o.I][o.D]))
 		}
+		// the registered contract exists, has code, and the receiver's balance in it rose by the amount
+		ca := after.reg[o.D]
+		if ca < 0 {
+			return bad("converted-coins-have-a-wrapper", "conversion-without-registered-contract",
+				fmt.Sprintf("ConvertCosmosCoinToERC20 of %s%s succeeded, no ERC20 contract is registered for the denom", x, denoms[o.D]))
+		}
+		if !w.hasCode(ctx, w.ctr[ca].Address) {
+			return bad("converted-coins-have-a-wrapper", "registered-contract-has-no-code",
+				fmt.Sprintf("ConvertCosmosCoinToERC20 of %s%s: registered contract %s has no code", x, denoms[o.D], w.ctr[ca].Hex()))
+		}
+		if o.R == accZero {
+			return bad("conversion-value", "mint-to-zero-address-accepted", fmt.Sprintf("amount %s", x))
+		}
 		c := before.reg[o.D]
 		if c < 0 { // deployed on first use
-			c = before.n
-			exp.n++
+			c = exp.addContract()
 			exp.reg[o.D] = c
-			row := make([]*big.Int, nAcc)
-			for a := range row {
-				row[a] = big.NewInt(0)
-			}
-			exp.erc = append(exp.erc, row)
-			exp.tot = append(exp.tot, big.NewInt(0))
 		}
 		sub(&exp.bal[o.I][o.D], x)
 		add(&exp.bal[accM][o.D], x)
 		add(&exp.erc[c][o.R], x)
 		add(&exp.tot[c], x)
-		if f := w.crossCheck(after, after.reg[o.D], o.R); f != nil {
+		if f := w.crossCheck(ctx, after, after.reg[o.D], o.R); f != nil {
 			return f
 		}
 	case "e2cos":
@@ -289,11 +401,13 @@ func (w *world) monitor(o op, cls Class, before, after *snap, en, al []bool, blo
 		sub(&exp.tot[c], x)
 		sub(&exp.bal[accM][o.D], x)
 		add(&exp.bal[o.R][o.D], x)
-		if f := w.crossCheck(after, c, o.I); f != nil {
+		if f := w.crossCheck(ctx, after, c, o.I); f != nil {
 			return f
 		}
 	case "xfer":
-		if o.C < before.n {
+		if o.C < before.n && isEvil(o.C) {
+			frame(o.C)
+		} else if o.C < before.n {
 			v := new(big.Int).Mod(x, u256)
 			sub(&exp.erc[o.C][o.I], v)
 			add(&exp.erc[o.C][o.R], v)
@@ -302,13 +416,31 @@ func (w *world) monitor(o op, cls Class, before, after *snap, en, al []bool, blo
 			}
 		}
 	case "mint":
-		if o.C < before.n {
+		if o.C < before.n && isEvil(o.C) {
+			frame(o.C)
+		} else if o.C < before.n {
 			if o.C >= nPair {
 				return bad("erc20-ledger", "wrapper-minted-by-non-owner", fmt.Sprint(o.C))
 			}
 			v := new(big.Int).Mod(x, u256)
 			add(&exp.erc[o.C][o.R], v)
 			add(&exp.tot[o.C], v)
+		}
+	case "approve":
+		frame(o.C)
+		if o.C < before.n {
+			// an approval moves no token
+			exp.erc[o.C], exp.tot[o.C] = before.erc[o.C], before.tot[o.C]
+		}
+	case "xferfrom":
+		frame(o.C)
+		if o.C < nPair && !isEvil(o.C) && o.F == accM && o.I != accM && after.erc[o.C][accM].Cmp(before.erc[o.C][accM]) < 0 {
+			return bad("locked-tokens-stay-locked", "locked-tokens-pulled-out",
+				fmt.Sprintf("transferFrom by account %d took %s tokens of contract %d out of the module's EVM address", o.I,
+					new(big.Int).Sub(before.erc[o.C][accM], after.erc[o.C][accM]), o.C))
+		}
+		if o.C < before.n && !eq(before.tot[o.C], after.tot[o.C]) {
+			return bad("erc20-ledger", "transfer-changed-total-supply", fmt.Sprint(o.C))
 		}
 	case "send":
 		if blockedAcc[o.R] {
@@ -317,19 +449,30 @@ func (w *world) monitor(o op, cls Class, before, after *snap, en, al []bool, blo
 		sub(&exp.bal[o.I][o.D], x)
 		add(&exp.bal[o.R][o.D], x)
 	case "params":
+		// only well-formed, duplicate-free lists may be accepted, and they are what is in force afterwards
+		if why := rawInvalid(o); why != "" {
+			return bad("malformed-parameters-refused", "malformed-params-accepted", fmt.Sprintf("%s: pairs %+v tokens %+v", why, o.Ps, o.Ts))
+		}
+		exp.pairs, exp.allowed = nil, nil
+		for _, p := range o.Ps {
+			exp.pairs = append(exp.pairs, [2]int{p.C, p.D})
+		}
+		for _, t := range o.Ts {
+			exp.allowed = append(exp.allowed, t.D)
+		}
 	}
 	if d := diff(exp, after); d != "" {
 		sig := "inexact-delta-" + kind
 		return &failure{"conversion-value", sig, d}
 	}
-	return w.backing(after)
+	return w.backing(ctx, after)
 }
 
 // roundTrip: when op undoes the previous successful conversion prev (same
 // parties swapped, the amount that was credited), it must succeed and restore
 // every balance and supply observed before prev.
-func roundTrip(prev op, prevBefore *snap, cur op, cls Class, after *snap, en, al []bool) *failure {
-	inv, ok := inverseOf(prev, prevBefore, nil)
+func roundTrip(prev op, prevBefore *snap, cur op, cls Class, curBefore, after *snap) *failure {
+	inv, ok := inverseOf(prev, prevBefore)
 	if !ok || inv.Kind != cur.Kind || inv.I != cur.I || inv.R != cur.R || inv.X != cur.X || inv.Direct != cur.Direct {
 		return nil
 	}
@@ -341,10 +484,13 @@ func roundTrip(prev op, prevBefore *snap, cur op, cls Class, after *snap, en, al
 	}
 	x := cur.amount()
 	// cases in which the way back is legitimately closed
-	if cur.Kind == "cos2e" && !al[cur.D] {
+	if cur.Kind == "cos2e" && !curBefore.isAllowed(cur.D) {
 		return nil
 	}
-	if x.Sign() == 0 && (!cur.Direct || (cur.Kind == "e2c" && isBep3[pairDenom[cur.C]])) {
+	if cur.Kind == "e2c" && curBefore.denomOfCtr(cur.C) < 0 {
+		return nil
+	}
+	if x.Sign() == 0 && (!cur.Direct || (cur.Kind == "e2c" && isBep3[curBefore.denomOfCtr(cur.C)])) {
 		return nil
 	}
 	if cls != ClassOk {
@@ -352,15 +498,9 @@ func roundTrip(prev op, prevBefore *snap, cur op, cls Class, after *snap, en, al
 	}
 	exp := cloneSnap(prevBefore)
 	// contracts deployed by the first leg stay deployed, with nothing in them
-	for c := exp.n; c < after.n; c++ {
-		row := make([]*big.Int, nAcc)
-		for a := range row {
-			row[a] = big.NewInt(0)
-		}
-		exp.erc = append(exp.erc, row)
-		exp.tot = append(exp.tot, big.NewInt(0))
+	for exp.n < after.n {
+		exp.addContract()
 	}
-	exp.n = after.n
 	exp.reg = append([]int(nil), after.reg...)
 	if d := diff(exp, after); d != "" {
 		return &failure{"round-trip", "round-trip-not-restored", d}
@@ -369,6 +509,32 @@ func roundTrip(prev op, prevBefore *snap, cur op, cls Class, after *snap, en, al
 }
 
 // ------------------------------------------------------------ Coq rendering
+
+func coqPraw(p praw) string {
+	a := fmt.Sprintf("(ACtr %s)", Nat(p.C))
+	switch p.K {
+	case "zero":
+		a = "AZero"
+	case "short":
+		a = "ABadLen"
+	}
+	d := "None"
+	if p.D >= 0 {
+		d = fmt.Sprintf("(Some %s)", Nat(p.D))
+	}
+	return fmt.Sprintf("mkPraw %s %s", a, d)
+}
+
+func coqTraw(t traw) string {
+	d, sy := "None", "None"
+	if t.D >= 0 {
+		d = fmt.Sprintf("(Some %s)", Nat(t.D))
+	}
+	if t.Sym >= 0 {
+		sy = fmt.Sprintf("(Some %s)", Nat(t.Sym))
+	}
+	return fmt.Sprintf("mkTraw %s %s %s %s", d, Bool(t.Name), sy, Bool(t.Dec))
+}
 
 func coqOp(o op) string {
 	x := Z(o.amount())
@@ -385,15 +551,52 @@ func coqOp(o op) string {
 		return fmt.Sprintf("ErcTransfer %s %s %s %s", Nat(o.C), Nat(o.I), Nat(o.R), x)
 	case "mint":
 		return fmt.Sprintf("ErcMint %s %s %s", Nat(o.C), Nat(o.R), x)
+	case "approve":
+		return fmt.Sprintf("ErcApprove %s %s %s %s", Nat(o.C), Nat(o.I), Nat(o.R), x)
+	case "xferfrom":
+		return fmt.Sprintf("ErcTransferFrom %s %s %s %s %s", Nat(o.C), Nat(o.I), Nat(o.F), Nat(o.R), x)
 	case "send":
 		return fmt.Sprintf("BankSend %s %s %s %s", Nat(o.I), Nat(o.R), Nat(o.D), x)
-	default:
-		return fmt.Sprintf("SetParams %s %s", BoolList(o.En), BoolList(o.Al))
+	case "params":
+		ps := make([]string, len(o.Ps))
+		for i, p := range o.Ps {
+			ps[i] = coqPraw(p)
+		}
+		ts := make([]string, len(o.Ts))
+		for i, t := range o.Ts {
+			ts[i] = coqTraw(t)
+		}
+		return fmt.Sprintf("SetParams %s %s", List(ps), List(ts))
 	}
+	panic("coqOp: " + o.Kind)
+}
+
+func coqTx(o op) string {
+	var it []string
+	for _, m := range o.msgs() {
+		it = append(it, coqOp(m))
+	}
+	return List(it)
+}
+
+func natList(xs []int) string {
+	it := make([]string, len(xs))
+	for i, x := range xs {
+		it[i] = Nat(x)
+	}
+	return List(it)
+}
+
+func pairList(ps [][2]int) string {
+	it := make([]string, len(ps))
+	for i, p := range ps {
+		it[i] = fmt.Sprintf("(%s, %s)", Nat(p[0]), Nat(p[1]))
+	}
+	return List(it)
 }
 
 func coqObs(cls Class, before, after *snap) string {
-	var db, ds, de, dt, dr []string
+	var db, ds, de, dt, da, dr []string
 	for a := 0; a < nAcc; a++ {
 		for d := 0; d < nDenom; d++ {
 			if !eq(before.bal[a][d], after.bal[a][d]) {
@@ -419,6 +622,15 @@ func coqObs(cls Class, before, after *snap) string {
 			if !eq(old, after.erc[c][a]) {
 				de = append(de, fmt.Sprintf("(%s, %s, %s)", Nat(c), Nat(a), Z(after.erc[c][a])))
 			}
+			for sp := 0; sp < nAcc; sp++ {
+				old := zero
+				if c < before.n {
+					old = before.allow[c][a][sp]
+				}
+				if !eq(old, after.allow[c][a][sp]) {
+					da = append(da, fmt.Sprintf("(%s, (%s, %s), %s)", Nat(c), Nat(a), Nat(sp), Z(after.allow[c][a][sp])))
+				}
+			}
 		}
 		old := zero
 		if c < before.n {
@@ -428,15 +640,11 @@ func coqObs(cls Class, before, after *snap) string {
 			dt = append(dt, fmt.Sprintf("(%s, %s)", Nat(c), Z(after.tot[c])))
 		}
 	}
-	return fmt.Sprintf("mkObs %s %s %s %s %s %s %s", cls.Coq(), List(db), List(ds), List(de), List(dt), List(dr), Nat(after.n))
-}
-
-func natList(xs []int) string {
-	it := make([]string, len(xs))
-	for i, x := range xs {
-		it[i] = Nat(x)
+	params := "None"
+	if fmt.Sprint(before.pairs) != fmt.Sprint(after.pairs) || fmt.Sprint(before.allowed) != fmt.Sprint(after.allowed) {
+		params = fmt.Sprintf("(Some (%s, %s))", pairList(after.pairs), natList(after.allowed))
 	}
-	return List(it)
+	return fmt.Sprintf("mkObs %s %s %s %s %s %s %s %s %s", cls.Coq(), List(db), List(ds), List(de), List(dt), List(da), List(dr), Nat(after.n), params)
 }
 
 func (w *world) blockedList() []bool {
@@ -448,14 +656,19 @@ func (w *world) blockedList() []bool {
 }
 
 func (w *world) coqEnvState(s *snap) string {
-	env := fmt.Sprintf("(mk_env %s %s %s %s %s %s)", Nat(nAcc), Nat(nDenom), Nat(accM), BoolList(w.blockedList()), natList(pairDenom), BoolList(isBep3))
+	env := fmt.Sprintf("(mk_envx %s %s %s %s %s %s %s %s)", Nat(nAcc), Nat(nDenom), Nat(accM), Nat(accZero),
+		BoolList(w.blockedList()), natList(pairDenom), BoolList(evilCtr), BoolList(isBep3))
 	brows := make([]string, nAcc)
 	for a := range brows {
 		brows[a] = ZList(s.bal[a])
 	}
 	crows := make([]string, s.n)
 	for c := range crows {
-		crows[c] = fmt.Sprintf("(%s, %s)", Z(s.tot[c]), ZList(s.erc[c]))
+		arows := make([]string, nAcc)
+		for a := range arows {
+			arows[a] = ZList(s.allow[c][a])
+		}
+		crows[c] = fmt.Sprintf("(%s, %s, %s)", Z(s.tot[c]), ZList(s.erc[c]), List(arows))
 	}
 	var rg []string
 	for d := 0; d < nDenom; d++ {
@@ -463,7 +676,7 @@ func (w *world) coqEnvState(s *snap) string {
 			rg = append(rg, fmt.Sprintf("(%s, %s)", Nat(d), Nat(s.reg[d])))
 		}
 	}
-	st := fmt.Sprintf("(mk_state %s %s %s %s %s %s)", List(brows), ZList(s.sup), List(crows), List(rg), BoolList(w.enabled), BoolList(w.allowed))
+	st := fmt.Sprintf("(mk_statex %s %s %s %s %s %s)", List(brows), ZList(s.sup), List(crows), List(rg), pairList(s.pairs), natList(s.allowed))
 	return env + "\n  " + st
 }
 
@@ -496,6 +709,7 @@ func (w *world) initialMints() {
 		{0, 0, "70000000005"}, {0, 1, "30000000000"}, {0, 2, "9999999999"},
 		{1, 0, "1000"}, {1, 3, "25"},
 		{2, 1, "20000000001"}, {2, 3, "123456789012345678"},
+		{3, 0, "5000"}, {3, 2, "777"},
 	} {
 		x, _ := new(big.Int).SetString(e.x, 10)
 		if err := w.k.MintERC20(w.ctx, w.ctr[e.c], iaddr(w.eaddrs[e.a]), x); err != nil {
@@ -510,7 +724,7 @@ func runHistory(seed uint64, idx, n int, ops []op, cnt *Counters) runOut {
 	w.initialMints()
 	r := NewRng(seed, uint64(idx))
 	out := runOut{splits: map[string]bool{}}
-	prev := w.snapshot()
+	prev := w.snapshot(w.ctx)
 	header := w.coqEnvState(prev)
 	blockedAcc := w.blockedList()
 	g := &gen{r: r, w: w, cnt: cnt}
@@ -526,6 +740,8 @@ func runHistory(seed uint64, idx, n int, ops []op, cnt *Counters) runOut {
 			cnt.Inc("split:" + k)
 		}
 	}
+	// denoms whose first conversion (the deploying one) was rolled back after the deployment
+	rolledBack := map[int]bool{}
 	for i := 0; i < n; i++ {
 		var o op
 		if ops != nil {
@@ -534,28 +750,87 @@ func runHistory(seed uint64, idx, n int, ops []op, cnt *Counters) runOut {
 			g.s = prev
 			o = g.next()
 		}
-		en, al := append([]bool(nil), w.enabled...), append([]bool(nil), w.allowed...)
-		cls, err := w.exec(o)
-		after := w.snapshot()
+		var f *failure
+		okMsgs := 0
+		deployedInTx := -1
+		cls, err, failedAt, last := w.exec(o, prev, func(ctx sdk.Context, k int, m op, before, after *snap) {
+			okMsgs++
+			if cnt != nil {
+				cnt.Inc("op:" + m.Kind + ":ok")
+			}
+			if m.Kind == "cos2e" && before.reg[m.D] < 0 && after.reg[m.D] >= 0 {
+				deployedInTx = m.D
+			}
+			if f == nil {
+				f = w.monitor(ctx, m, before, after, blockedAcc)
+			}
+			splits(m, ClassOk, nil, before, after, blockedAcc, mark)
+		})
+		after := w.snapshot(w.ctx)
 		out.ops = append(out.ops, o)
-		if cnt != nil {
-			cnt.Inc("op:" + o.Kind + ":" + cls.String())
-			if cls == ClassErr {
-				cnt.Inc("err:" + errKind(err))
+		msgs := o.msgs()
+		if cls != ClassOk && failedAt >= 0 && failedAt < len(msgs) {
+			m := msgs[failedAt]
+			if cnt != nil {
+				cnt.Inc("op:" + m.Kind + ":" + cls.String())
+				if cls == ClassErr {
+					cnt.Inc("err:" + errKind(err))
+				}
+			}
+			if o.Kind != "tx" {
+				splits(m, cls, err, prev, after, blockedAcc, mark)
+			}
+			// a conversion that deployed the wrapper and was then rolled back
+			if m.Kind == "cos2e" && prev.isAllowed(m.D) && prev.reg[m.D] < 0 && errKind(err) == "evm-revert" {
+				mark("cos2e:first-conversion-rolled-back-after-deploy")
+				rolledBack[m.D] = true
+			}
+			if deployedInTx >= 0 {
+				mark("tx:deploy-rolled-back-by-later-message")
+				rolledBack[deployedInTx] = true
 			}
 		}
-		steps = append(steps, fmt.Sprintf("(%s,\n    %s)", coqOp(o), coqObs(cls, prev, after)))
-		var f *failure
-		if cls == ClassPanic {
+		if o.Kind == "tx" {
+			if cnt != nil {
+				cnt.Inc("tx:" + cls.String())
+			}
+			if cls == ClassOk {
+				mark("tx:ok")
+			} else if okMsgs > 0 {
+				mark("tx:failed-after-successful-message")
+			}
+		}
+		if cls == ClassOk {
+			for _, m := range msgs {
+				if m.Kind == "cos2e" && rolledBack[m.D] && prev.reg[m.D] < 0 {
+					mark("cos2e:ok-after-rolled-back-first-conversion")
+					delete(rolledBack, m.D)
+				}
+			}
+		}
+		steps = append(steps, fmt.Sprintf("(%s,\n    %s)", coqTx(o), coqObs(cls, prev, after)))
+		switch {
+		case cls == ClassPanic:
 			f = &failure{"no-panic", "panic-in-" + o.Kind, fmt.Sprint(err)}
+		case cls != ClassOk:
+			// a failed (or disabled) operation / transaction changes nothing on either side; what its
+			// messages did on the discarded context did not happen
+			f = nil
+			if d := diff(prev, after); d != "" {
+				f = &failure{"failed-or-disabled-no-change", "failed-op-changed-state", d}
+			} else {
+				f = w.backing(w.ctx, after)
+			}
+		case f == nil:
+			// what was observed on the cached context is what was committed
+			if d := diff(last, after); d != "" {
+				f = &failure{"committed-state", "commit-differs-from-execution", d}
+			}
 		}
-		if f == nil {
-			f = w.monitor(o, cls, prev, after, en, al, blockedAcc)
-		}
-		if f == nil && lastConv != nil {
-			f = roundTrip(*lastConv, lastConvBefore, o, cls, after, en, al)
+		if f == nil && lastConv != nil && o.Kind != "tx" {
+			f = roundTrip(*lastConv, lastConvBefore, o, cls, prev, after)
 			if f == nil && cls == ClassOk {
-				if inv, ok := inverseOf(*lastConv, nil, nil); ok && inv.Kind == o.Kind && inv.X == o.X && inv.I == o.I && inv.R == o.R {
+				if inv, ok := inverseOf(*lastConv, lastConvBefore); ok && inv.Kind == o.Kind && inv.X == o.X && inv.I == o.I && inv.R == o.R {
 					mark("roundtrip:" + lastConv.Kind)
 				}
 			}
@@ -566,9 +841,7 @@ func runHistory(seed uint64, idx, n int, ops []op, cnt *Counters) runOut {
 		if cls == ClassOk {
 			out.okOps++
 		}
-		splits(o, cls, err, prev, after, en, al, blockedAcc, mark)
-		isConv := o.Kind == "c2e" || o.Kind == "e2c" || o.Kind == "cos2e" || o.Kind == "e2cos"
-		if cls == ClassOk && isConv {
+		if cls == ClassOk && o.Kind != "tx" && isConv(o.Kind) {
 			oc := o
 			lastConv, lastConvBefore = &oc, prev
 			g.last, g.lastSnap = &oc, prev
@@ -590,6 +863,8 @@ func errKind(err error) string {
 	switch {
 	case strings.Contains(m, "insufficient funds") || strings.Contains(m, "is smaller than"):
 		return "insufficient-funds"
+	case strings.Contains(m, "Approval event"):
+		return "approval-event"
 	case strings.Contains(m, "conversion not enabled") || strings.Contains(m, "not enabled"):
 		return "not-enabled"
 	case strings.Contains(m, "no erc20 contract found"):
@@ -600,6 +875,8 @@ func errKind(err error) string {
 		return "blocked-recipient"
 	case strings.Contains(m, "invalid token balance"):
 		return "balance-delta-check"
+	case strings.Contains(m, "invalid parameter value") || strings.Contains(m, "failed to set parameter"):
+		return "param-validation"
 	case strings.Contains(m, "execution reverted") || strings.Contains(m, "evm"):
 		return "evm-revert"
 	case strings.Contains(m, "amount cannot be zero") || strings.Contains(m, "invalid coins") || strings.Contains(m, "negative") || strings.Contains(m, "invalid request"):
@@ -609,19 +886,21 @@ func errKind(err error) string {
 }
 
 // splits counts the proof-relevant case splits an operation exercised.
-func splits(o op, cls Class, err error, before, after *snap, en, al []bool, blockedAcc []bool, mark func(string)) {
+func splits(o op, cls Class, err error, before, after *snap, blockedAcc []bool, mark func(string)) {
 	x := o.amount()
 	ok := cls == ClassOk
 	ek := errKind(err)
 	switch o.Kind {
 	case "c2e":
-		c := enabledPairOfDenom(en, o.D)
-		if o.D >= firstLook && !ok {
+		c := before.pairOfDenom(o.D)
+		if isLook(o.D) && !ok {
 			mark("c2e:lookalike-denom-refused")
 		}
 		switch {
 		case c < 0:
 			mark("c2e:disabled-refused")
+		case !ok && ek == "approval-event":
+			mark("c2e:approval-emitting-pair-refused")
 		case ok && isBep3[o.D]:
 			mark("c2e:ok:bep3")
 		case ok:
@@ -630,6 +909,8 @@ func splits(o op, cls Class, err error, before, after *snap, en, al []bool, bloc
 			mark("c2e:overdraw-refused")
 		case ek == "balance-delta-check":
 			mark("c2e:balance-delta-check-refused")
+		case o.R == accZero:
+			mark("c2e:zero-receiver-refused")
 		}
 		if ok && x.Sign() > 0 && eq(x, before.bal[o.I][o.D]) {
 			mark("amount:exact-balance-ok")
@@ -638,12 +919,15 @@ func splits(o op, cls Class, err error, before, after *snap, en, al []bool, bloc
 			mark("amount:zero-direct-ok")
 		}
 	case "e2c":
+		d := before.denomOfCtr(o.C)
 		switch {
-		case o.C >= nPair || !en[o.C]:
+		case d < 0:
 			mark("e2c:disabled-refused")
-		case ok && isBep3[pairDenom[o.C]] && new(big.Int).Mod(x, k10).Sign() > 0:
+		case !ok && ek == "approval-event":
+			mark("e2c:approval-emitting-pair-refused")
+		case ok && isBep3[d] && new(big.Int).Mod(x, k10).Sign() > 0:
 			mark("e2c:ok:bep3-with-dust")
-		case ok && isBep3[pairDenom[o.C]]:
+		case ok && isBep3[d]:
 			mark("e2c:ok:bep3-no-dust")
 		case ok:
 			mark("e2c:ok:plain")
@@ -660,11 +944,11 @@ func splits(o op, cls Class, err error, before, after *snap, en, al []bool, bloc
 			mark("amount:exact-balance-ok")
 		}
 	case "cos2e":
-		if o.D >= firstLook && !ok {
+		if isLook(o.D) && !ok {
 			mark("cos2e:lookalike-denom-refused")
 		}
 		switch {
-		case !al[o.D]:
+		case !before.isAllowed(o.D):
 			mark("cos2e:not-allowed-refused")
 		case ok && before.reg[o.D] < 0:
 			mark("cos2e:ok:deploy")
@@ -672,6 +956,8 @@ func splits(o op, cls Class, err error, before, after *snap, en, al []bool, bloc
 			mark("cos2e:ok:existing")
 		case x.Cmp(before.bal[o.I][o.D]) > 0:
 			mark("cos2e:overdraw-refused")
+		case o.R == accZero && ek == "evm-revert":
+			mark("cos2e:zero-receiver-refused")
 		}
 		if ok && x.Sign() == 0 {
 			mark("amount:zero-direct-ok")
@@ -681,13 +967,13 @@ func splits(o op, cls Class, err error, before, after *snap, en, al []bool, bloc
 		}
 	case "e2cos":
 		c := before.reg[o.D]
-		if o.D >= firstLook && !ok {
+		if isLook(o.D) && !ok {
 			mark("e2cos:lookalike-denom-refused")
 		}
 		switch {
 		case c < 0:
 			mark("e2cos:unregistered-refused")
-		case ok && !al[o.D]:
+		case ok && !before.isAllowed(o.D):
 			mark("e2cos:ok:denom-no-longer-allowed")
 		case ok:
 			mark("e2cos:ok")
@@ -695,6 +981,9 @@ func splits(o op, cls Class, err error, before, after *snap, en, al []bool, bloc
 			mark("e2cos:overdraw-refused")
 		case ek == "blocked-recipient":
 			mark("e2cos:blocked-recipient-refused")
+		}
+		if ok && o.R == accZero {
+			mark("e2cos:ok:coins-to-zero-sdk-address")
 		}
 	case "xfer":
 		if ok && o.C < before.n && o.R == accM && x.Sign() > 0 {
@@ -706,6 +995,12 @@ func splits(o op, cls Class, err error, before, after *snap, en, al []bool, bloc
 		if ok && o.C >= before.n {
 			mark("xfer:no-code")
 		}
+		if ok && isEvil(o.C) {
+			mark("xfer:approval-emitting-token")
+		}
+		if !ok && o.R == accZero && o.C < before.n && !isEvil(o.C) {
+			mark("xfer:zero-address-refused")
+		}
 	case "mint":
 		if !ok && o.C < nPair {
 			mark("mint:total-supply-overflow-refused")
@@ -713,12 +1008,52 @@ func splits(o op, cls Class, err error, before, after *snap, en, al []bool, bloc
 		if !ok && o.C >= nPair && o.C < before.n {
 			mark("mint:wrapper-not-owner-refused")
 		}
+	case "approve":
+		if ok && o.C < before.n {
+			mark("approve:ok")
+		}
+		if !ok {
+			mark("approve:refused")
+		}
+	case "xferfrom":
+		if o.C < before.n {
+			moved := !eq(before.erc[o.C][o.F], after.erc[o.C][o.F])
+			switch {
+			case ok && moved && eq(before.allow[o.C][o.F][o.I], maxU256):
+				mark("xferfrom:ok:infinite-allowance")
+			case ok && moved:
+				mark("xferfrom:ok:spends-allowance")
+			case !ok:
+				mark("xferfrom:refused")
+			}
+			if o.F == accM && o.C < nPair && before.erc[o.C][accM].Sign() > 0 && x.Sign() > 0 {
+				mark("xferfrom:from-module-attempt")
+			}
+			if ok && moved && isEvil(o.C) {
+				mark("xferfrom:approval-emitting-token-pull")
+			}
+		}
 	case "send":
 		if !ok && blockedAcc[o.R] && x.Sign() > 0 {
 			mark("send:blocked-recipient-refused")
 		}
 	case "params":
-		mark("params")
+		why := rawInvalid(o)
+		if ok && o.Direct {
+			mark("params:ok:keeper-set-params")
+		}
+		switch {
+		case ok:
+			mark("params:ok")
+		case strings.HasPrefix(why, "pair address twice"):
+			mark("params:duplicate-address-refused")
+		case strings.HasPrefix(why, "pair denom twice"):
+			mark("params:duplicate-denom-refused")
+		case strings.HasPrefix(why, "pair"):
+			mark("params:malformed-pair-refused")
+		case strings.HasPrefix(why, "token"):
+			mark("params:malformed-or-duplicate-token-refused")
+		}
 	}
 }
 
@@ -729,10 +1064,21 @@ var allSplits = []string{
 	"cos2e:not-allowed-refused", "cos2e:ok:deploy", "cos2e:ok:existing", "cos2e:overdraw-refused",
 	"e2cos:unregistered-refused", "e2cos:ok", "e2cos:ok:denom-no-longer-allowed", "e2cos:overdraw-refused", "e2cos:blocked-recipient-refused",
 	"xfer:to-module-address", "xfer:uint256-wrap", "mint:total-supply-overflow-refused", "mint:wrapper-not-owner-refused",
-	"send:blocked-recipient-refused", "params",
+	"send:blocked-recipient-refused",
 	"amount:exact-balance-ok", "amount:zero-direct-ok",
 	"roundtrip:cos2e", "roundtrip:e2cos", "roundtrip:c2e", "roundtrip:e2c",
 	"c2e:lookalike-denom-refused", "cos2e:lookalike-denom-refused", "e2cos:lookalike-denom-refused",
+	// the zero address, rolled-back first conversions, transactions
+	"cos2e:zero-receiver-refused", "c2e:zero-receiver-refused", "xfer:zero-address-refused",
+	"cos2e:first-conversion-rolled-back-after-deploy", "tx:deploy-rolled-back-by-later-message",
+	"cos2e:ok-after-rolled-back-first-conversion", "tx:ok", "tx:failed-after-successful-message",
+	// the Approval-emitting pair and allowances
+	"e2c:approval-emitting-pair-refused", "c2e:approval-emitting-pair-refused", "xfer:approval-emitting-token",
+	"approve:ok", "approve:refused", "xferfrom:ok:spends-allowance", "xferfrom:ok:infinite-allowance", "xferfrom:refused",
+	"xferfrom:from-module-attempt", "xferfrom:approval-emitting-token-pull",
+	// parameter changes
+	"params:ok", "params:ok:keeper-set-params", "params:duplicate-address-refused", "params:duplicate-denom-refused", "params:malformed-pair-refused",
+	"params:malformed-or-duplicate-token-refused",
 }
 
 func run(o Opts) (*Result, error) {
@@ -741,7 +1087,7 @@ func run(o Opts) (*Result, error) {
 		n = defaultLen
 	}
 	res := &Result{Property: "C10", Seed: o.Seed,
-		Rule: "histories of " + fmt.Sprint(n) + " operations (the four evmutil conversions through ValidateBasic+msg server or the keeper, ERC20 transfer/mint in the real EVM, bank MsgSend, parameter changes) generated from splitmix64(seed, history index) on a fresh app.TestApp with the real compiled ERC20 contracts; a history is non-trivial when it contains at least one successful conversion in each family (EVM-native and cosmos-native) and at least one refused conversion; distinct by hash of the operation list"}
+		Rule: "histories of " + fmt.Sprint(n) + " transactions (the four evmutil conversions through ValidateBasic + the app's message router or the keeper; ERC20 transfer/mint/approve/transferFrom in the real EVM on the compiled OpenZeppelin contracts and on an Approval-emitting token; bank MsgSend; parameter-change proposals, well-formed and malformed, through the governance handler; multi-message transactions; receivers include the module, a blocked module account and the zero address) generated from splitmix64(seed, history index) on a fresh app.TestApp; every transaction runs on a cached context discarded on failure; a history is non-trivial when it contains at least one successful conversion in each family (EVM-native and cosmos-native) and at least one refused conversion; distinct by hash of the operation list"}
 	cnt := NewCounters()
 
 	if o.Replay != "" {
@@ -770,9 +1116,14 @@ func run(o Opts) (*Result, error) {
 	}
 
 	outs := make([]runOut, o.N)
+	var shrunk int32
+	const maxShrink = 4
 	ParallelFor(o.N, o.Workers, func(i int) {
 		out := runHistory(o.Seed, i, n, nil, cnt)
-		if out.fail != nil {
+		if out.fail != nil && atomic.AddInt32(&shrunk, 1) > maxShrink {
+			// enough shrunk examples: the remaining failing histories are reported as they are
+			out.fail.Replay = MustJSON(hist{o.Seed, i, out.ops[:out.fail.Step+1]})
+		} else if out.fail != nil {
 			sig := out.fail.Signature
 			fails := func(cand []op) bool {
 				f := runHistory(o.Seed, i, 0, cand, nil).fail
@@ -809,7 +1160,9 @@ func run(o Opts) (*Result, error) {
 	}
 	for i, ot := range outs {
 		res.Histories++
-		res.Evaluations += len(ot.ops)
+		for _, p := range ot.ops {
+			res.Evaluations += len(p.msgs())
+		}
 		h := hist{o.Seed, i, ot.ops}
 		key := string(MustJSON(ot.ops))
 		evmOk, cosOk, refused := false, false, false
